@@ -1,6 +1,23 @@
 """Strict projection of live prov objects through the public API only
 (DESIGN 2.1).  This is the only way the library's state enters a trace."""
+import datetime
+import json
+
+from prov.identifier import Identifier, QualifiedName
+from prov.model import Literal
+from prov.constants import PROV_N_MAP
+
 from vocab import uri_segs, local_segs
+
+KIND_OF = {
+    "entity": "entity", "activity": "activity", "agent": "agent",
+    "wasGeneratedBy": "generation", "used": "usage", "wasInformedBy": "communication",
+    "wasStartedBy": "start", "wasEndedBy": "end", "wasInvalidatedBy": "invalidation",
+    "wasDerivedFrom": "derivation", "wasAttributedTo": "attribution",
+    "wasAssociatedWith": "association", "actedOnBehalfOf": "delegation",
+    "wasInfluencedBy": "influence", "specializationOf": "specialization",
+    "alternateOf": "alternate", "mentionOf": "mention", "hadMember": "membership",
+}
 
 
 def proj_ns(container):
@@ -32,3 +49,48 @@ def printed_form(q):
         p, l = s.split(":", 1)
         return {"k": "pl", "p": p, "l": local_segs(l)}
     return {"k": "bare", "l": local_segs(s)}
+
+
+def proj_value(v, voc):
+    """Concrete attribute value -> value token (kind aware, URI level)."""
+    if isinstance(v, bool):
+        return {"t": "bool", "v": voc.token("bool", v)}
+    if isinstance(v, int):
+        return {"t": "int", "v": voc.token("int", v)}
+    if isinstance(v, float):
+        return {"t": "float", "v": voc.token("float", v)}
+    if isinstance(v, datetime.datetime):
+        return {"t": "dt", "v": voc.token("dt", v)}
+    if isinstance(v, str):
+        it = voc.iso_token(v)
+        if it is not None:
+            return {"t": "isostr", "v": it}
+        return {"t": "str", "v": voc.token("str", v)}
+    if isinstance(v, QualifiedName):
+        return {"t": "qn", "u": uri_segs(v.uri)}
+    if isinstance(v, Identifier):
+        return {"t": "uri", "u": uri_segs(v.uri)}
+    if isinstance(v, Literal):
+        if v.langtag is not None:
+            return {"t": "lang", "v": voc.token("str", v.value), "lang": v.langtag}
+        dt = v.datatype
+        return {"t": "lit", "v": voc.token("str", v.value),
+                "dt": uri_segs(dt.uri) if isinstance(dt, Identifier) else ["?" + repr(dt)]}
+    return {"t": "?" + type(v).__name__, "v": "?" + repr(v)}
+
+
+def _sortkey(x):
+    return json.dumps(x, sort_keys=True)
+
+
+def proj_record(r, voc):
+    ident = r.identifier
+    attrs = [{"a": uri_segs(a.uri), "v": proj_value(v, voc)} for (a, v) in r.attributes]
+    attrs.sort(key=_sortkey)
+    return {"k": KIND_OF.get(PROV_N_MAP.get(r.get_type()), "?" + str(r.get_type())),
+            "id": uri_segs(ident.uri) if ident is not None else [],
+            "attrs": attrs}
+
+
+def proj_container(c, voc):
+    return {"recs": [proj_record(r, voc) for r in c.get_records()]}
